@@ -89,6 +89,8 @@ def parseCache (s : String) : Option (Option (List Entry)) :=
 def parseEv (s : String) : Option Ev :=
   match s.toList with
   | 'd' :: r => some (.nodeDone (String.ofList r))
+  | 'f' :: r => some (.nodeFailed (String.ofList r))
+  | 'r' :: r => some (.nodeReset (String.ofList r))
   | ['e'] => some .removeEmpty
   | ['c'] => some .cacheMap
   | ['k'] => some .kill
